@@ -225,6 +225,7 @@ type Sim struct {
 	stopQuiesce bool
 	lastRoundOps int
 	injSeq      int
+	chaosCount  int
 	faultyDrain bool // Drain draws API faults too (state-injection bodies)
 	QuiesceHook func(round int)
 }
